@@ -208,6 +208,18 @@ def run_unit(unit, repo="/repo", extra_args=None, timeout=900):
             # the trait-level ensures line comes first; the impl that failed it is the span further down the file
             fn, impl = enclosing_fn(gen_lines, max(e["lines"]))
             e["fn"], e["impl"] = fn, impl
+            # an impl may carry labels of its own (`//@impl-labels [..]` right after its header): a trait-level obligation failing
+            # in that impl is then also attributed to them
+            if impl and e["labels"]:
+                for i in range(min(max(e["lines"]), len(gen_lines)) - 1, -1, -1):
+                    if gen_lines[i].strip().rstrip("{").strip() == impl:
+                        for l in gen_lines[i + 1:i + 6]:
+                            if "//@impl-labels" in l:
+                                for lm in LABEL_RE.finditer(l):
+                                    lab = (tuple(lm.group(1).split(",")), lm.group(2))
+                                    if lab not in e["labels"]:
+                                        e["labels"].append(lab)
+                        break
     r.failed = errs
     r.status = "violation"
     if rlimit_hit:
